@@ -108,6 +108,33 @@ def check_fallback(ctx):
                         and isinstance(x.left.args[0], ast.Subscript) and \
                         c.pol == isinstance(x.ops[0], ast.Is):
                     regs.add(U(method_call(x.left)[0]))
+            # try: h = R[kind] / except KeyError: - the handler path says
+            # R has no entry for the kind
+            for c in p.conds:
+                txt = str(getattr(c.expr, 'value', '')) if c.kind == 'exc' \
+                    else ''
+                if 'KeyError' not in txt or 'try@' not in txt:
+                    continue
+                try:
+                    ln = int(txt.rsplit('try@', 1)[1].split()[0].rstrip(')'))
+                except ValueError:
+                    continue
+                for tr in ast.walk(pc.node):
+                    if isinstance(tr, ast.Try) and tr.lineno == ln and len(
+                            tr.body) == 1 and isinstance(
+                                tr.body[0], (ast.Assign, ast.Expr)) and \
+                            isinstance(tr.body[0].value, ast.Subscript) and \
+                            not is_const(tr.body[0].value.slice, None):
+                        rv = tr.body[0].value.value
+                        if isinstance(rv, ast.Name):
+                            # a local alias of the registry
+                            for a in ast.walk(pc.node):
+                                if isinstance(a, ast.Assign) and len(
+                                        a.targets) == 1 and U(
+                                            a.targets[0]) == rv.id:
+                                    rv = a.value
+                                    break
+                        regs.add(U(rv))
             for c in neg:
                 r = t.expand(c.expr.comparators[0])
                 if isinstance(r, ast.Call) and U(r.func).endswith(
